@@ -145,6 +145,15 @@ def run(ctx, report):
     else:
         k, got, w = bad_im[0]
         R2.violation('get_im_fmt', 'get_im_fmt:signed', 'get_im_fmt(se=%s, w8=%s, mode=%s, %s) gives %s; the immediate is read as %s' % (k[0], k[1], k[2], k[3], got, w), where(arch, gif))
+    # the same questions asked of one table object, in two orders: the format of a relative displacement must not depend on the instructions decoded before
+    hist = getattr(M, '_im_fmt_history', [])
+    if not hist:
+        R2.ok('get_im_fmt:history', sample='get_im_fmt asked %d questions of one instance in two orders: every answer equals the answer of a fresh instance' % (2 * len(tab)))
+    else:
+        k, fresh, got = hist[0]
+        R2.violation('get_im_fmt:history', 'get_im_fmt:history:%s' % k[3], 'get_im_fmt(se=%s, w8=%s, mode=%s, %s) gives %s on a fresh table object and %s after other questions were asked of the same '
+                     'object: the signedness / width of an immediate or relative displacement depends on what was decoded before' % (k[0], k[1], k[2], k[3], fresh, got), where(arch, gif),
+                     witness="dis('b001') then dis('ebfe').getdstflow()")
     # _dis: narrowing of s32 under 16-bit operand size
     dis = arch.method('x86_mn', '_dis')
     found = None
